@@ -264,7 +264,9 @@ func runC12(e *sim.Env) {
 			t = tree.Extend(e, t, bo)
 			exts = append(exts, t)
 			delays = append(delays, time.Duration(e.Range(50, 5000))*time.Millisecond)
-			hows = append(hows, e.Intn(3))
+			// (never the header alone: a header whose block does not follow
+			// bounces between interconnected nodes until the next sync, DESIGN 12.7)
+			hows = append(hows, 1+e.Intn(2))
 		}
 		if t.Block.V2 != nil {
 			miner := nodes[0]
